@@ -28,6 +28,11 @@ def run_c17(tier):
     res = tlc_mc("ReaderMC", "ReaderMC_subsets_mc.cfg", workers=4, timeout=900)
     mc_violation(out, res, "ReaderMC", "ReaderMC_subsets_mc.cfg")
     states, trans = res["stats"]["distinct"], res["stats"]["generated"]
+    # the root composition over every permutation of the storage order, gaps and slack before the chunk data
+    mc_runs = []
+    st2, tr2 = bita_composition(out, "any", tier, mc_runs)
+    states += st2
+    trans += tr2
     shards = 16
     traces, procs = [], []
     for transport in ("local", "http"):
@@ -63,7 +68,7 @@ def run_c17(tier):
             e["rec"] = {k: e["rec"][k] for k in ("data_off", "header_len", "legacy_magic", "unknown_fields", "order", "descs")}
     shutil.rmtree(workdir, ignore_errors=True)
     out.coverage = {"states": states, "transitions": trans, "traces_validated_against_impl": runs, "trace_events_validated": summary["events"], "encodings": nscen,
-                    "verdicts": counts, "exhaustive": True,
+                    "verdicts": counts, "model_checking_runs": mc_runs, "exhaustive": True,
                     "rule": "every descriptor order x storage order x gap pattern x slack for sources of 0..3 (4) distinct chunks incl. duplicates; magic, unknown fields, raw/compressed per chunk, hash length 4..64, packed/unpacked rebuild order, trailing bytes, chunker parameters and a seed drawn per scenario (seeded); each archive cloned locally, over HTTP and by bita clone / bita info",
                     "samples": [sample]}
     out.assumptions = ["the independent encoder (refcodec.rs) is trusted; every encoded archive is first checked against ArchiveFormat.Conforming by TLC",
